@@ -92,6 +92,42 @@ def simpleUnmarshalGo (env : JEnv) (j : Json) : Res Value :=
   | .ok t => unmarshalTop env j t
   | r => errOf r
 
+/-! ## documents whose objects list their keys in ANY order
+
+`docOK` (JsonValSpec.lean) wants the normal forms of the keys of every object strictly
+ascending; real documents seldom oblige.  `docOKU` only wants them DISTINCT (no duplicate,
+also none after normalisation); `structTyU` is the structural type of such a document: the
+object type over the normalised keys — sorted, as a Go map's key set has no order — each
+with the structural type of its member. -/
+mutual
+def structTyU (norm : String → String) : Json → Ty
+  | .null => .dyn
+  | .bool _ => .bool
+  | .num _ => .number
+  | .str _ => .string
+  | .arr xs => .tuple (structTyUL norm xs)
+  | .obj ks vs =>
+    let r := Ty.buildFields norm ks (structTyUL norm vs)
+    .object r.1 r.2 (r.1.map fun _ => false)
+def structTyUL (norm : String → String) : List Json → List Ty
+  | [] => []
+  | x :: xs => structTyU norm x :: structTyUL norm xs
+end
+
+mutual
+def docOKU (env : JEnv) : Json → Bool
+  | .num l =>
+    match Num.parse512 l with
+    | .ok n => numOK n
+    | _ => false
+  | .arr xs => docOKUL env xs
+  | .obj ks vs => !hasDup (ks.map env.norm) && ks.length == vs.length && docOKUL env vs
+  | _ => true
+def docOKUL (env : JEnv) : List Json → Bool
+  | [] => true
+  | x :: xs => docOKU env x && docOKUL env xs
+end
+
 /-! ## the encoder's output as a plain JSON reader sees it, for any constraint -/
 
 /-! the same token tree (structural; `Json` derives `BEq` only) -/
